@@ -7,8 +7,16 @@ pub fn call_function(vm: &mut VM, name: &str, args: &[Value]) -> Result<Value> {
         .map_err(AelysError::Runtime)
 }
 
-// get a cached callable for repeated calls (avoids name lookup overhead)
+// get a callable for repeated calls of the function a global name denotes
 pub fn get_function(vm: &VM, name: &str) -> Result<CallableFunction> {
+    Ok(CallableFunction {
+        kind: resolve_callable(vm, name)?,
+        name: name.to_string(),
+    })
+}
+
+// the code pointers, arity and register count of the function `name` denotes right now
+fn resolve_callable(vm: &VM, name: &str) -> Result<CachedFuncKind> {
     let func_value = vm.get_function_value(name).ok_or_else(|| {
         AelysError::Runtime(
             vm.runtime_error(RuntimeErrorKind::UndefinedVariable(format!(
@@ -36,35 +44,29 @@ pub fn get_function(vm: &VM, name: &str) -> Result<CallableFunction> {
         runtime::ObjectKind::Function(func) => {
             let bc = &func.function.bytecode;
             let consts = &func.function.constants;
-            Ok(CallableFunction {
-                kind: CachedFuncKind::Function {
-                    func_ref,
-                    arity: func.arity(),
-                    num_registers: func.num_registers(),
-                    bytecode_ptr: bc.as_ptr(),
-                    bytecode_len: bc.len(),
-                    constants_ptr: consts.as_ptr(),
-                    constants_len: consts.len(),
-                },
+            Ok(CachedFuncKind::Function {
+                func_ref,
+                arity: func.arity(),
+                num_registers: func.num_registers(),
+                bytecode_ptr: bc.as_ptr(),
+                bytecode_len: bc.len(),
+                constants_ptr: consts.as_ptr(),
+                constants_len: consts.len(),
             })
         }
-        runtime::ObjectKind::Native(native) => Ok(CallableFunction {
-            kind: CachedFuncKind::Native {
-                native: native.clone(),
-            },
+        runtime::ObjectKind::Native(native) => Ok(CachedFuncKind::Native {
+            native: native.clone(),
         }),
-        runtime::ObjectKind::Closure(closure) => Ok(CallableFunction {
-            kind: CachedFuncKind::Closure {
-                func_ref: closure.function,
-                arity: closure.arity,
-                num_registers: closure.num_registers,
-                bytecode_ptr: closure.bytecode_ptr,
-                bytecode_len: closure.bytecode_len,
-                constants_ptr: closure.constants_ptr,
-                constants_len: closure.constants_len,
-                upvalues_ptr: closure.upvalues.as_ptr(),
-                upvalues_len: closure.upvalues.len(),
-            },
+        runtime::ObjectKind::Closure(closure) => Ok(CachedFuncKind::Closure {
+            func_ref: closure.function,
+            arity: closure.arity,
+            num_registers: closure.num_registers,
+            bytecode_ptr: closure.bytecode_ptr,
+            bytecode_len: closure.bytecode_len,
+            constants_ptr: closure.constants_ptr,
+            constants_len: closure.constants_len,
+            upvalues_ptr: closure.upvalues.as_ptr(),
+            upvalues_len: closure.upvalues.len(),
         }),
         _ => Err(AelysError::Runtime(vm.runtime_error(
             RuntimeErrorKind::NotCallable("not callable".to_string()),
@@ -102,7 +104,9 @@ enum CachedFuncKind {
 
 #[derive(Clone)]
 pub struct CallableFunction {
+    // what the name denoted when the handle was made (answers arity / is_native / is_closure)
     kind: CachedFuncKind,
+    name: String,
 }
 
 impl CallableFunction {
@@ -122,8 +126,13 @@ impl CallableFunction {
         matches!(self.kind, CachedFuncKind::Closure { .. })
     }
 
+    // The raw code pointers of a function are only valid while its object is alive, and nothing
+    // keeps the object of an old handle alive: once the name is rebound the collector may free
+    // it (the call then ran freed bytecode). A call therefore goes to the function the name
+    // denotes NOW - like a call site in the program - with pointers read from the live object.
     pub fn call(&self, vm: &mut VM, args: &[Value]) -> Result<Value> {
-        match &self.kind {
+        let current = resolve_callable(vm, &self.name)?;
+        match &current {
             CachedFuncKind::Function {
                 func_ref,
                 arity,
